@@ -1,10 +1,343 @@
 package main
 
-// Replay of solver models against the real code (go test -overlay); adapters are added per function family.
+// Replay of solver models against the real code.
+//
+// One adapter, for the family "receiver / parameters built from scalars": integers, booleans, runes, slices of
+// integers or runes, and pointers to repository structs whose fields are of those kinds (other fields keep their zero
+// value). For such a function the entry state of a model is a concrete Go value, so the model can be run:
+//   - safety obligations (index, slice, nil, division, make, type assertion, nil map): the replay confirms the
+//     violation when the real function panics on the model's input;
+//   - termination obligations (decreases): the replay confirms it when the real function does not return within 3 s.
+// Functional postconditions are not replayed (the contract language is not executable); their violations are reported
+// with "no-failing-input-found" and the model in the replay file.
+//
+// The test is injected with `go test -overlay` (nothing is written into the repository).
+
+import (
+	"bytes"
+	"context"
+	"encoding/json"
+	"fmt"
+	"go/types"
+	"os"
+	"os/exec"
+	"path/filepath"
+	"regexp"
+	"sort"
+	"strconv"
+	"strings"
+	"time"
+
+	"golang.org/x/tools/go/ssa"
+)
+
+const replayMaxElems = 48
+
+type replaySlot struct {
+	name string // observation constant
+	term *Term
+}
+
+type replayPlan struct {
+	slots []replaySlot
+	build func(vals map[string]string) (setup []string, args []string, ok bool)
+}
+
+func scalarKind(t types.Type) string {
+	b, ok := t.Underlying().(*types.Basic)
+	if !ok {
+		return ""
+	}
+	switch {
+	case b.Info()&types.IsInteger != 0:
+		return "int"
+	case b.Info()&types.IsBoolean != 0:
+		return "bool"
+	}
+	return ""
+}
+
+// goLit renders a model value as a Go literal of type t ("" when it does not fit).
+func goLit(val string, t types.Type, qual func(types.Type) string) string {
+	switch scalarKind(t) {
+	case "bool":
+		if val == "true" || val == "false" {
+			return val
+		}
+		return ""
+	case "int":
+		v := strings.ReplaceAll(strings.ReplaceAll(strings.ReplaceAll(val, "(", ""), ")", ""), " ", "")
+		if _, err := strconv.ParseInt(v, 10, 64); err != nil {
+			if _, err2 := strconv.ParseUint(v, 10, 64); err2 != nil {
+				return ""
+			}
+		}
+		return fmt.Sprintf("%s(%s)", qual(t), v)
+	}
+	return ""
+}
+
+func modelInt(val string) (int64, bool) {
+	v := strings.ReplaceAll(strings.ReplaceAll(strings.ReplaceAll(val, "(", ""), ")", ""), " ", "")
+	n, err := strconv.ParseInt(v, 10, 64)
+	return n, err == nil
+}
 
 func replayObligation(eng *Engine, r oblResult, verif string) (bool, string) {
 	if r.res.Status != "sat" {
 		return false, "no model: solver answered " + r.res.Status
 	}
-	return false, "no replay adapter for " + r.o.Func + "; the model is in solver_output"
+	o := r.o
+	expect := ""
+	switch o.Kind {
+	case "bounds", "slice", "nil", "div", "makeslice", "typeassert", "mapwrite":
+		expect = "panic"
+	case "decreases":
+		expect = "hang"
+	default:
+		return false, "obligations of kind " + o.Kind + " are not replayed (the contract language is not executable); the model is in solver_output"
+	}
+	ex := o.exec
+	if ex == nil || ex.topFrame == nil || ex.topFn == nil || ex.topFn.Pkg == nil {
+		return false, "no replay adapter for " + o.Func
+	}
+	fn := ex.topFn
+	if fn.Parent() != nil || len(fn.FreeVars) > 0 {
+		return false, "no replay adapter for closures (" + o.Func + ")"
+	}
+	pkg := fn.Pkg.Pkg
+	qual := func(t types.Type) string { return types.TypeString(t, types.RelativeTo(pkg)) }
+	fr := ex.topFrame
+	entry := fr.entry
+	n := 0
+	newSlot := func(plan *replayPlan, t *Term) string {
+		n++
+		name := fmt.Sprintf("obs!%d", n)
+		plan.slots = append(plan.slots, replaySlot{name, t})
+		return name
+	}
+	plan := &replayPlan{}
+	type sliceObs struct {
+		ln    string
+		elems []string
+		et    types.Type
+	}
+	obsSlice := func(comps []*Term, et types.Type) *sliceObs {
+		so := &sliceObs{et: et, ln: newSlot(plan, comps[2])}
+		keys := elemKeys(et)
+		if len(keys) != 1 {
+			return nil
+		}
+		arr := Select(entry.heap.Get(keys[0], keySortReg[keys[0]]), comps[0])
+		for i := 0; i < replayMaxElems; i++ {
+			so.elems = append(so.elems, newSlot(plan, Select(arr, Idx(comps[1], IntLit(int64(i))))))
+		}
+		return so
+	}
+	sliceLit := func(so *sliceObs, st types.Type, vals map[string]string) (string, bool) {
+		ln, ok := modelInt(vals[so.ln])
+		if !ok || ln < 0 || ln > replayMaxElems {
+			return "", false
+		}
+		var parts []string
+		for i := int64(0); i < ln; i++ {
+			l := goLit(vals[so.elems[i]], so.et, qual)
+			if l == "" {
+				return "", false
+			}
+			parts = append(parts, l)
+		}
+		return fmt.Sprintf("%s{%s}", qual(st), strings.Join(parts, ", ")), true
+	}
+	var builders []func(vals map[string]string) (string, bool) // one Go expression per parameter
+	for i, p := range fn.Params {
+		arg := fr.args[i]
+		pt := p.Type()
+		switch {
+		case scalarKind(pt) != "":
+			name := newSlot(plan, arg.C[0])
+			builders = append(builders, func(vals map[string]string) (string, bool) {
+				l := goLit(vals[name], pt, qual)
+				return l, l != ""
+			})
+		case isSliceOfScalars(pt):
+			so := obsSlice(arg.C, pt.Underlying().(*types.Slice).Elem())
+			if so == nil {
+				return false, "no replay adapter for parameter " + p.Name() + " of " + o.Func
+			}
+			builders = append(builders, func(vals map[string]string) (string, bool) { return sliceLit(so, pt, vals) })
+		default:
+			ptr, ok := pt.Underlying().(*types.Pointer)
+			if !ok {
+				return false, fmt.Sprintf("no replay adapter: parameter %s of %s has type %s", p.Name(), o.Func, typeStr(pt))
+			}
+			stt, ok := ptr.Elem().Underlying().(*types.Struct)
+			if !ok || len(arg.C) != 1 {
+				return false, fmt.Sprintf("no replay adapter: parameter %s of %s has type %s", p.Name(), o.Func, typeStr(pt))
+			}
+			ref := arg.C[0]
+			keys := refKeys(ptr.Elem())
+			type fieldObs struct {
+				name   string
+				scalar string
+				sl     *sliceObs
+				t      types.Type
+			}
+			var fields []fieldObs
+			for fi := 0; fi < stt.NumFields(); fi++ {
+				f := stt.Field(fi)
+				off := fieldOffset(stt, fi)
+				ft := f.Type()
+				switch {
+				case scalarKind(ft) != "":
+					k := keys[off]
+					fields = append(fields, fieldObs{name: f.Name(), t: ft, scalar: newSlot(plan, Select(entry.heap.Get(k, keySortReg[k]), ref))})
+				case isSliceOfScalars(ft):
+					var comps []*Term
+					for j := 0; j < 4; j++ {
+						k := keys[off+j]
+						comps = append(comps, Select(entry.heap.Get(k, keySortReg[k]), ref))
+					}
+					if so := obsSlice(comps, ft.Underlying().(*types.Slice).Elem()); so != nil {
+						fields = append(fields, fieldObs{name: f.Name(), t: ft, sl: so})
+					}
+				}
+			}
+			elemT := ptr.Elem()
+			builders = append(builders, func(vals map[string]string) (string, bool) {
+				var parts []string
+				for _, f := range fields {
+					if f.sl != nil {
+						l, ok := sliceLit(f.sl, f.t, vals)
+						if !ok {
+							return "", false
+						}
+						parts = append(parts, f.name+": "+l)
+						continue
+					}
+					l := goLit(vals[f.scalar], f.t, qual)
+					if l == "" {
+						return "", false
+					}
+					parts = append(parts, f.name+": "+l)
+				}
+				return fmt.Sprintf("&%s{%s}", qual(elemT), strings.Join(parts, ", ")), true
+			})
+		}
+	}
+	// the model, restricted to what the input is built from
+	if ex.hc != nil {
+		heapConsts = ex.hc
+	}
+	var hyps []*Term
+	hyps = append(hyps, ex.assumes[:o.NAssume]...)
+	hyps = append(hyps, o.Extra...)
+	core := append(append([]*Term{}, hyps...), o.PC, Not(o.Goal))
+	ax, _ := eng.relevantAxioms(core, "", nil)
+	named := map[string]*Term{}
+	for _, s := range plan.slots {
+		named[s.name] = s.term
+	}
+	sc := &Script{Asserts: append(append(append([]*Term{}, ax...), hyps...), o.PC, Not(o.Goal)), Named: named}
+	dir, err := os.MkdirTemp("", "csvqvc-replay-")
+	if err != nil {
+		return false, "replay: " + err.Error()
+	}
+	defer os.RemoveAll(dir)
+	saved := satIsFinal
+	satIsFinal = true
+	res := Solve(sc.Render("ALL", nil, false), dir, "replay.model", 20*time.Second)
+	satIsFinal = saved
+	if res.Status != "sat" {
+		return false, "replay: the model query came back " + res.Status
+	}
+	vals := map[string]string{}
+	for _, m := range regexp.MustCompile(`\(\|?(obs![0-9]+)\|?\s+(\(-\s*[0-9]+\)|-?[0-9]+|true|false)\)`).FindAllStringSubmatch(res.Output, -1) {
+		vals[m[1]] = m[2]
+	}
+	var args []string
+	for _, b := range builders {
+		a, ok := b(vals)
+		if !ok {
+			return false, "replay: the model does not fit the adapter (a slice longer than " + strconv.Itoa(replayMaxElems) + " elements or a value outside its type)"
+		}
+		args = append(args, a)
+	}
+	// the call
+	call := ""
+	name := fn.Name()
+	if recv := fn.Signature.Recv(); recv != nil {
+		call = fmt.Sprintf("(%s).%s(%s)", args[0], name, strings.Join(args[1:], ", "))
+	} else {
+		call = fmt.Sprintf("%s(%s)", name, strings.Join(args, ", "))
+	}
+	src := fmt.Sprintf(`package %s
+
+import (
+	"fmt"
+	"os"
+	"testing"
+	"time"
+)
+
+// generated by csvqvc: replay of the solver's model for obligation
+//   %s
+func TestZZCsvqvcReplay(t *testing.T) {
+	done := make(chan string, 1)
+	go func() {
+		defer func() {
+			if r := recover(); r != nil {
+				done <- fmt.Sprintf("REPLAY-PANIC: %%v", r)
+				return
+			}
+			done <- "REPLAY-RETURNED"
+		}()
+		%s
+	}()
+	select {
+	case m := <-done:
+		fmt.Println(m)
+	case <-time.After(3 * time.Second):
+		fmt.Println("REPLAY-HANG: no return within 3 s")
+		os.Exit(3)
+	}
 }
+`, pkg.Name(), o.Name, call)
+	rel := strings.TrimPrefix(pkg.Path(), "github.com/mithrandie/csvq")
+	rel = strings.TrimPrefix(rel, "/")
+	if rel == "" {
+		rel = "."
+	}
+	testPath := filepath.Join(eng.repo, rel, "zz_csvqvc_replay_test.go")
+	srcPath := filepath.Join(dir, "replay_test.go")
+	os.WriteFile(srcPath, []byte(src), 0o644)
+	ov, _ := json.Marshal(map[string]interface{}{"Replace": map[string]string{testPath: srcPath}})
+	ovPath := filepath.Join(dir, "overlay.json")
+	os.WriteFile(ovPath, ov, 0o644)
+	ctx, cancel := context.WithTimeout(context.Background(), 120*time.Second)
+	defer cancel()
+	cmd := exec.CommandContext(ctx, "go", "test", "-v", "-overlay", ovPath, "-vet=off", "-count=1", "-timeout", "60s", "-run", "^TestZZCsvqvcReplay$", "./"+rel)
+	cmd.Dir = eng.repo
+	cmd.Env = append(os.Environ(), "GOFLAGS=-mod=mod", "GOPROXY=off", "GOSUMDB=off", "GOTOOLCHAIN=local")
+	var out bytes.Buffer
+	cmd.Stdout = &out
+	cmd.Stderr = &out
+	_ = cmd.Run()
+	text := out.String()
+	note := "replayed on the real code with `go test -overlay` (input from the solver's model):\n" + src + "\noutput:\n" + truncate(text, 3000)
+	switch {
+	case expect == "panic" && strings.Contains(text, "REPLAY-PANIC"):
+		return true, note
+	case expect == "hang" && strings.Contains(text, "REPLAY-HANG"):
+		return true, note
+	}
+	return false, "the model's input did not reproduce the failure on the real code (the model may rely on values the adapter cannot build, or on an assumed contract): " + note
+}
+
+func isSliceOfScalars(t types.Type) bool {
+	sl, ok := t.Underlying().(*types.Slice)
+	return ok && scalarKind(sl.Elem()) != ""
+}
+
+var _ = sort.Strings
+var _ *ssa.Function
